@@ -11,7 +11,7 @@ if ! (cd "$d" && git apply --unsafe-paths "$patch" 2>/dev/null || patch -p1 -s <
   echo "PATCH DOES NOT APPLY: $patch"; exit 3
 fi
 for p in "$@"; do
-  out=$(ARCHE_REPO="$d" /verif/bin/archecheck -property "$p" -tier ${TIER:-quick} -no-evidence 2>&1); rc=$?
+  out=$(ARCHE_REPO="$d" ${ARCHECHECK:-/verif/bin/archecheck} -property "$p" -tier ${TIER:-quick} -no-evidence 2>&1); rc=$?
   n=$(echo "$out" | grep -c '^VIOLATION')
   echo "$p exit=$rc violations=$n"
   echo "$out" | grep -A2 'kind=' | grep -v '^--' | sed 's/^/    /' | head -${LINES_MAX:-12}
